@@ -166,7 +166,7 @@ def node_obligations(func: str, scen: str, props: Sequence[str], level: str,
                                    "a match from the record start is also a match from every later address position",
                                    lambda: vc.start_c(cb, lv), props, rp))
     for o in obs:
-        o.props = [q for q in o.props if _serves(q, o)]
+        o.props = [q for q in o.props if _serves(q, o) and not (q == "C11" and level != G.INST)]
     return obs
 
 
@@ -175,7 +175,7 @@ ALIGNMENT_FAMILIES = {"END", "ENTRY", "START", "CLOSED", "UNIT"}
 
 def _serves(prop: str, o: Ob) -> bool:
     """which property an obligation is evidence for"""
-    if prop == "C07":
+    if prop in ("C07", "C11"):
         return o.family in ALIGNMENT_FAMILIES
     if prop == "C02":
         return ":one:" not in o.name
@@ -241,9 +241,9 @@ def _operator(cls_name: str, op: str, props: Sequence[str]):
                      doc=f"{op} over {cshape} children at {level} level")(run)
 
 
-_operator("NodeOr", "$or", ["C03", "C02", "C07", "C05"])
-_operator("NodeAnd", "$and", ["C03", "C02", "C07", "C01", "C05"])
-_operator("NodeAndAnyOrder", "$and_any_order", ["C03", "C02", "C07", "C05"])
+_operator("NodeOr", "$or", ["C03", "C02", "C07", "C11", "C05"])
+_operator("NodeAnd", "$and", ["C03", "C02", "C07", "C11", "C01", "C05"])
+_operator("NodeAndAnyOrder", "$and_any_order", ["C03", "C02", "C07", "C11", "C05"])
 
 
 def _not():
@@ -268,8 +268,8 @@ def _not():
                 # exactly one whole operand field at which x fails
                 return f"(?!{c})[^,|]*,"
             rp = {"kind": "operator", "op": "$not", "level": level, "children": "k1"}
-            return node_obligations(func, sid, ["C04", "C02", "C07", "C05"], level, build, spec, levels, replay=rp, unit=True)
-        scenario(sid, func, ["C04", "C02", "C07", "C05"],
+            return node_obligations(func, sid, ["C04", "C02", "C07", "C11", "C05"], level, build, spec, levels, replay=rp, unit=True)
+        scenario(sid, func, ["C04", "C02", "C07", "C11", "C05"],
                  inlined=["LogicalOperationBaseNode.get_regex", "process_children", "NodeNot._make_main_regex",
                           "TimesTypeBuilder.get_min_max_regex"], doc=f"$not at {level} level")(run)
 
@@ -326,9 +326,9 @@ def _mnemonic():
                     # operand fields in order, any further fields of the same record, "|"
                     return f"{HEXADDR}{_window(str.__str__(w), fm)},{ops}{REST_OF_RECORD}"
                 rp = {"kind": "mnemonic", "fm": fm, "children": cshape, "level": G.INST}
-                return node_obligations(MN_FUNC, sid, ["C01", "C02", "C07", "C05"], G.INST, build, spec, levels, replay=rp,
+                return node_obligations(MN_FUNC, sid, ["C01", "C02", "C07", "C11", "C05"], G.INST, build, spec, levels, replay=rp,
                                         unit=True)
-            scenario(sid, MN_FUNC, ["C01", "C02", "C07", "C05"],
+            scenario(sid, MN_FUNC, ["C01", "C02", "C07", "C11", "C05"],
                      inlined=["PatternNodeMnemonic.get_operand_regex", "get_min_max_regex", "_form_regex_with_time",
                               "_form_regex_without_time", "InstructionNodeHelper.get_pattern_node_name",
                               "InstructionNodeHelper.allow_matching_substring", "JASMConfig.get_instance/get_info/load_config"],
@@ -372,9 +372,9 @@ def _operand():
                     n = mkname()
                     return f"{_window('0x' + str.__str__(n.stem), fo)},"
                 rp = {"kind": "operand", "fo": fo, "cat": cat, "level": G.OPER}
-                return node_obligations(OP_FUNC, sid, ["C01", "C07", "C05"], G.OPER, build, spec, levels, replay=rp,
+                return node_obligations(OP_FUNC, sid, ["C01", "C07", "C11", "C05"], G.OPER, build, spec, levels, replay=rp,
                                         shapes=["one"], pinned=pinned if cat == "hexh" else None, unit=True)
-            scenario(sid, OP_FUNC, ["C01", "C07", "C05"],
+            scenario(sid, OP_FUNC, ["C01", "C07", "C11", "C05"],
                      inlined=["PatternNodeOperand._is_hex_operand", "_process_hex_operand",
                               "InstructionNodeHelper.get_pattern_node_name", "allow_matching_substring"],
                      doc="operand item with an opaque literal name of each category")(run)
